@@ -10,8 +10,8 @@ from .chk_wire import SchemaCache
 from .chk_layout import abs_for_text
 
 
-def hist_line(sch, events):
-    toks = ["S", "ecu"]
+def hist_line(sch, events, dev="ecu"):
+    toks = ["S", dev]
     for e in events:
         if e["op"] == "T":
             toks += ["T", str(glue.bits_to_int(e["t"]))]
@@ -78,26 +78,34 @@ def hist_class(sch, events):
 
 
 def rand_device(rng, k):
+    """a schema with one or two devices; messages are spread over them"""
     n = rng.randint(1, 4)
+    two = rng.random() < 0.5
     structs, impls = [], []
     for i in range(1, n + 1):
         p = rng.choice([-1, 1, 2, 3, 5, 10, 100, 1000, rng.randint(1, 50)])
         structs.append({"name": "M%d" % i, "fields": [{"name": "fa", "id": 0, "type": {"k": "u", "w": rng.choice([3, 8, 16])}},
                                                       {"name": "fb", "id": 1, "type": {"k": "i", "w": rng.choice([5, 12, 32])}}]})
-        fl = [{"name": "id", "value": {"i": 10 * k + i}}, {"name": "device", "value": {"s": "ecu"}}]
+        fl = [{"name": "id", "value": {"i": 10 * k + i}},
+              {"name": "device", "value": {"s": "bms" if two and rng.random() < 0.5 else "ecu"}}]
         if p != -1:
             fl.append({"name": "period", "value": {"i": p}})
         impls.append({"name": "M%d" % i, "protocol": "can", "type": "M%d" % i, "fields": fl, "signals": []})
     return {"structs": structs, "enums": [], "impls": impls}
 
 
-def rand_history(rng, sch, length):
-    ps = [p for p in periods(sch) if p != -1] or [3]
+def dev_impls(sch, dev):
+    return [im for im in sch["impls"] if cdriver.device_of(im) == dev]
+
+
+def rand_history(rng, sch, length, dev="ecu"):
+    mine = dev_impls(sch, dev)
+    ps = [p for p, im in zip(periods(sch), sch["impls"]) if p != -1 and im in mine] or [3]
     t = 0
     ev = []
     for _ in range(length):
-        if rng.random() < 0.2:
-            im = rng.choice(sch["impls"])
+        if rng.random() < 0.2 and mine:
+            im = rng.choice(mine)
             st = glue.find(sch["structs"], im["type"])
             v = {}
             for f in st["fields"]:
@@ -148,9 +156,16 @@ def run_c19(tier, seed):
     # (T) random devices / long histories
     nd, nh, hl = (6, 150, 30) if tier == "quick" else (40, 400, 40)
     rdevs = []
+    hdev = {}
     for k in range(nd):
         sch = rand_device(rng, k)
-        rdevs.append((sch, [rand_history(rng, sch, rng.randint(5, hl)) for _ in range(nh)]))
+        hs = []
+        for _ in range(nh):
+            d = rng.choice(sorted({cdriver.device_of(im) for im in sch["impls"]}))
+            h = rand_history(rng, sch, rng.randint(5, hl), d)
+            hs.append(h)
+            hdev[id(h)] = d
+        rdevs.append((sch, hs))
     jobs = [(sch, os.path.join(chk.workdir, "dev%d" % i), cache.get(sch)) for i, (sch, _) in enumerate(devs + rdevs)]
     with ThreadPoolExecutor(max_workers=16) as ex:
         built = list(ex.map(build_device, jobs))
@@ -161,7 +176,7 @@ def run_c19(tier, seed):
             chk.count(1)
             chk.violation("can_c.sched:%s" % st, {"schema_text": glue.schema_text(sch), "info": exe})
             continue
-        rc, out = cdriver.run_driver(exe, [hist_line(sch, h) for h in hs], timeout=600)
+        rc, out = cdriver.run_driver(exe, [hist_line(sch, h, hdev.get(id(h), "ecu")) for h in hs], timeout=600)
         idm = id_map(sch)
         for hi, h in enumerate(hs):
             obs = parse_hist_output(out[hi] if hi < len(out) else "", idm)
@@ -198,7 +213,7 @@ def run_c19(tier, seed):
                     else:
                         evs.append(e)
                 tid = "d%d-h%d" % (di, hi)
-                traces.append({"id": tid, "device": sch, "events": evs})
+                traces.append({"id": tid, "device": sch, "dev": hdev.get(id(h), "ecu"), "events": evs})
                 tmeta[tid] = (sch, h)
         shutil.rmtree(os.path.dirname(exe), ignore_errors=True)
     # canaries: an extra frame / a dropped frame / a changed byte must be rejected
